@@ -4,51 +4,51 @@
 From Verif Require Import GoSem Subs SubsProofs.
 
 (** For cue durations 1..1000 ms, a non-empty segment [s, s+d) whose UTC time is u >= 0, calcCueItvls
-    returns exactly one cue per UTC second q that intersects [u, u+d), in order:
+    returns, in order, exactly one cue per UTC second q that intersects [u, u+d) and whose cue has not
+    ended before the segment starts (u < q*1000 + c):
     (max(q*1000,u), min(q*1000+c, u+d), q) translated by s-u. *)
 Theorem C12_cues : forall s d u c, 1 <= c <= 1000 -> 0 < d -> 0 <= u ->
   calcCueItvls s d u c = Ok (cues_spec s d u c).
 Proof. exact calcCueItvls_spec. Qed.
 Print Assumptions C12_cues.
 
-(** the UTC seconds shown are exactly those whose interval [q*1000,(q+1)*1000) meets [u, u+d) *)
-Theorem C12_cue_seconds : forall s d u c q, 0 < d -> 0 <= u ->
-  (In q (map c_utc (cues_spec s d u c)) <-> q * 1000 < u + d /\ u < (q + 1) * 1000).
+(** the UTC seconds shown are exactly those that meet [u, u+d) and are still showing at u *)
+Theorem C12_cue_seconds : forall s d u c q, 1 <= c <= 1000 -> 0 < d -> 0 <= u ->
+  (In q (map c_utc (cues_spec s d u c)) <-> q * 1000 < u + d /\ u < q * 1000 + c).
 Proof. exact cues_spec_seconds. Qed.
 Print Assumptions C12_cue_seconds.
 
-(** If additionally **u mod 1000 < c** (the first second's cue has not already ended when the segment
-    starts): every cue has begin < end, consecutive cues do not overlap, all lie inside [s, s+d). *)
-Theorem C12_cues_ordered : forall s d u c, 1 <= c <= 1000 -> 0 < d -> 0 <= u -> u mod 1000 < c ->
+(** if the first second's cue is still showing (u mod 1000 < c) no second is skipped: one cue per
+    UTC second that intersects the segment *)
+Theorem C12_cues_all_seconds : forall s d u c, 1 <= c -> 0 <= u -> u mod 1000 < c ->
+  cues_spec s d u c = map (cue_of s d u c) (seqZ (first_sec u) (Z.to_nat (last_sec u d - first_sec u + 1))).
+Proof. exact cues_spec_all. Qed.
+Print Assumptions C12_cues_all_seconds.
+
+(** Unconditionally (since 6f3327b; before, u mod 1000 < c was needed): every cue has begin < end,
+    consecutive cues do not overlap, all lie inside [s, s+d). *)
+Theorem C12_cues_ordered : forall s d u c, 1 <= c <= 1000 -> 0 < d -> 0 <= u ->
   cues_chain s (s + d) (cues_spec s d u c).
 Proof. exact cues_spec_chain. Qed.
 Print Assumptions C12_cues_ordered.
 
-(** FINDING (cue-end-before-begin:late-start). Segment 475 of the 29.97 fps asset (u = 950950, d = 2002)
-    with the default cue duration 900: the first cue is (950950, 950900), end before begin. *)
-Theorem C12_late_start_refuted :
+(** The former finding late-start (fixed by 6f3327b). Segment 475 of the 29.97 fps asset (u = 950950,
+    d = 2002), default cue duration 900: the cue of second 950 is over and is skipped; before, the first
+    cue was (950950, 950900), end before begin, and its wvtt sample duration wrapped in uint32. *)
+Theorem C12_late_start_fixed :
   calcCueItvls 950950 2002 950950 900 =
-  Ok [ {| c_start := 950950; c_end := 950900; c_utc := 950 |};
-       {| c_start := 951000; c_end := 951900; c_utc := 951 |};
-       {| c_start := 952000; c_end := 952900; c_utc := 952 |} ]
-  /\ ~ cues_chain 950950 (950950 + 2002) (cues_spec 950950 2002 950950 900).
+  Ok [ {| c_start := 951000; c_end := 951900; c_utc := 951 |};
+       {| c_start := 952000; c_end := 952900; c_utc := 952 |} ].
 Proof. exact late_start_witness. Qed.
-Print Assumptions C12_late_start_refuted.
+Print Assumptions C12_late_start_fixed.
 
-(** ... and in wvtt the duration of that cue's sample wraps in uint32 *)
-Theorem C12_late_start_wvtt_refuted :
-  exists x rest, wvtt_samples 950950 2002
-     [ {| c_start := 950950; c_end := 950900; c_utc := 950 |};
-       {| c_start := 951000; c_end := 951900; c_utc := 951 |};
-       {| c_start := 952000; c_end := 952900; c_utc := 952 |} ] = x :: rest /\ w_dur x = 4294967246.
-Proof. exact late_start_wvtt_witness. Qed.
-Print Assumptions C12_late_start_wvtt_refuted.
-
-(** FINDING (long-cue). Cue duration 1001 ms, segment [90 s, 92 s): cueFullS = 2, the loop counts in
-    units of 2 s but uses the counter as a second: one cue, for UTC second 45, with end < begin. *)
+(** FINDING (long-cue). Cue duration 1500 ms, segment [90 s, 92 s): cueFullS = 2 and by design there is
+    one cue per 2 s (at even seconds; units repaired by 7bc345a): UTC second 91 intersects the segment
+    and would still be showing, but has no cue of its own; the cue of second 90 lasts into it. *)
 Theorem C12_long_cue_refuted :
-  cueFullS 1001 = 2 /\
-  calcCueItvls 90000 2000 90000 1001 = Ok [ {| c_start := 90000; c_end := 46001; c_utc := 45 |} ].
+  cueFullS 1500 = 2 /\
+  calcCueItvls 90000 2000 90000 1500 = Ok [ {| c_start := 90000; c_end := 91500; c_utc := 90 |} ] /\
+  (91 * 1000 < 90000 + 2000 /\ 90000 < 91 * 1000 + 1500).
 Proof. exact long_cue_witness. Qed.
 Print Assumptions C12_long_cue_refuted.
 
@@ -79,13 +79,12 @@ Print Assumptions C12_wvtt_total.
 (** The whole segment, from the reference video segment r: sequence number of r; decode time T and
     duration D are r's converted to ms by rep2SubsTime; the TTML cues (as read back from the printed
     hh:mm:ss.mmm) and the wvtt samples are the specified cue list for the UTC time T + startTime; the
-    wvtt samples tile [T, T+D). Domain: cue duration 1..1000, D a positive uint32, no int64 overflow,
-    and (T + startTimeS*1000) mod 1000 < cueDur. *)
+    wvtt samples tile [T, T+D). Domain: cue duration 1..1000, D a positive uint32, no int64 overflow. *)
 Theorem C12_segment : forall r startS c,
   let T := rep2SubsTime (r_time r) (r_ts r) in
   let D := rep2SubsTime (r_dur r) (r_ts r) in
   let U := T + startS * 1000 in
-  1 <= c <= 1000 -> 0 <= T -> 0 < D < two32 -> 0 <= startS -> U + D < two63 -> U mod 1000 < c ->
+  1 <= c <= 1000 -> 0 <= T -> 0 < D < two32 -> 0 <= startS -> U + D < two63 ->
   exists sg, subs_segment r startS c = Ok sg /\
     s_nr sg = r_nr r /\ s_time sg = T /\ s_dur sg = D /\
     s_cues sg = cues_spec T D U c /\
@@ -154,6 +153,5 @@ Example C12_example :
         s_samples := [ {| w_time := 90000; w_dur := 900; w_cue := Some 90 |};
                        {| w_time := 90900; w_dur := 100; w_cue := None |};
                        {| w_time := 91000; w_dur := 900; w_cue := Some 91 |};
-                       {| w_time := 91900; w_dur := 100; w_cue := None |} ] |}
-  /\ 90000 mod 1000 < 900.
-Proof. split; vm_compute; reflexivity. Qed.
+                       {| w_time := 91900; w_dur := 100; w_cue := None |} ] |}.
+Proof. vm_compute; reflexivity. Qed.
